@@ -4,7 +4,7 @@
    G_t edges, and every member has at least k G_t-neighbours inside its own group. *)
 From Coq Require Import NArith ZArith QArith List Bool Lia Arith Permutation.
 From Coq Require Import Zify ZifyBool ZifyNat.
-From PV Require Import Gen.CloneConst Clone.GroupSpec Clone.GroupSpecProofs Clone.GroupCommon Clone.GroupKCore.
+From PV Require Import Gen.GroupConst Clone.GroupSpec Clone.GroupSpecProofs Clone.GroupCommon Clone.GroupKCore.
 Import ListNotations.
 Local Close Scope Q_scope.
 
